@@ -77,6 +77,7 @@ def level1_configs(tier):
         for rev in (False, True):
             cfgs.append(dict(KR=KR, KQ=KQ, NP=1, rev=rev, coincident=True))
     cfgs.append(dict(KR=1, KQ=1, NP=0, rev=False, as_list=True))
+    cfgs.append(dict(KR=2, KQ=1, NP=2, rev=False, coincident=True, seed_order="asc", ss=1))
     cfgs.append(dict(KR=2, KQ=1, NP=2, rev=False, coincident=True, seed_order="asc"))
     cfgs.append(dict(KR=2, KQ=2, NP=2, rev=True, coincident=True, seed_order="asc") if tier != "quick" else
                 dict(KR=1, KQ=2, NP=2, rev=True, coincident=True, seed_order="asc"))
@@ -175,7 +176,7 @@ def _scenario_maps(name, seed):
     raise KeyError(name)
 
 
-def run_cli(name, mode, seed):
+def run_cli(name, mode, seed, out_name="o.xmap"):
     """returns (exception or None, {file: number of records}, read-back errors, rows)"""
     from src.args import Args
     from src.program import Program
@@ -184,7 +185,7 @@ def run_cli(name, mode, seed):
         refs, qrys = _scenario_maps(name, seed)
         _cmap(os.path.join(d, "r.cmap"), refs)
         _cmap(os.path.join(d, "q.cmap"), qrys)
-        out = os.path.join(d, "o.xmap")
+        out = os.path.join(d, out_name)
         argv = ["-r", os.path.join(d, "r.cmap"), "-q", os.path.join(d, "q.cmap"), "-o", out, "-pb", "-c", "1"]
         if mode != "default":
             argv += ["-oM", mode]
@@ -200,7 +201,7 @@ def run_cli(name, mode, seed):
             return ex, {}, [], None
         files, errors = {}, []
         for fn in sorted(os.listdir(d)):
-            if fn.endswith(".xmap"):
+            if fn.endswith(".xmap") or fn.startswith(out_name.split(".")[0]) and not fn.endswith(".cmap"):
                 text = open(os.path.join(d, fn)).read()
                 recs = [l for l in text.split("\n") if l and not l.startswith("#")]
                 files[fn] = len(recs)
@@ -221,7 +222,7 @@ def body_cli(E, cfg):
     name = E.choose(cfg["scenarios"], "scenario")
     mode = E.choose(cfg["modes"], "output-mode")
     seed = cfg["seed"]
-    exc, files, errors, rows = run_cli(name, mode, seed)
+    exc, files, errors, rows = run_cli(name, mode, seed, cfg.get("out_name", "o.xmap"))
     E.tag("nontrivial")
     if exc is not None:
         E.fail(f"cli-run-aborts:{type(exc).__name__}")
@@ -229,7 +230,7 @@ def body_cli(E, cfg):
     for e in errors:
         E.fail("written-file-cannot-be-read-back" if "read-back" in e else "file-malformed")
     if name in ("alignable-plus-unalignable",):
-        exc2, files2, errors2, rows2 = run_cli("alignable-only", mode, seed)
+        exc2, files2, errors2, rows2 = run_cli("alignable-only", mode, seed, cfg.get("out_name", "o.xmap"))
         E.check("unalignable-query-does-not-affect-the-others", exc2 is None and rows == rows2)
     E.check("unalignable-queries-yield-no-record", not any(r[0] in (9,) for r in (rows or [])))
     return [name, mode, files, rows]
@@ -247,9 +248,11 @@ def cli_configs(tier):
     seed = int(os.environ.get("VERIF_SEED", "0") or 0)
     if tier == "quick":
         return [dict(scenarios=SCENARIOS, modes=["default"], seed=seed),
-                dict(scenarios=["alignable-plus-unalignable", "no-queries-align"], modes=["separate", "joined", "all"], seed=seed)]
+                dict(scenarios=["alignable-plus-unalignable", "no-queries-align"], modes=["separate", "joined", "all"], seed=seed),
+                dict(scenarios=["alignable-only"], modes=["default", "separate", "all"], seed=seed, out_name="alignments")]
     return [dict(scenarios=SCENARIOS, modes=["default", "best", "separate", "joined", "all"], seed=seed),
-            dict(scenarios=SCENARIOS, modes=["default", "all"], seed=seed + 1)]
+            dict(scenarios=SCENARIOS, modes=["default", "all"], seed=seed + 1),
+            dict(scenarios=["alignable-only", "no-queries-align"], modes=["default", "separate", "joined", "all"], seed=seed, out_name="alignments")]
 
 
 def units(prop):
